@@ -56,6 +56,7 @@ func (ftp *Fs) ListDir(path string) []os.FileInfo {
 	if err != nil {
 		return []os.FileInfo{}
 	}
+	defer dir.Close()
 
 	list, err := dir.Readdir(-1)
 	if err != nil {
